@@ -268,6 +268,7 @@ class Report:
                     self.reached[k_] = self.reached.get(k_, 0) + v_
             self.extra['reached_functions_in_anchor_files'] = len(self.reached)
             self.extra['reached_functions_total'] = len(REACH)
+            self.extra['reached_note'] = 'entries counted by sys.monitoring (PY_START) during the first 40 cases of each worker process'
         except Exception:
             pass
         cov = {
